@@ -2,7 +2,7 @@
 C17 (source tie) — the hand-written model of `ValidatedRouteOrigin::validate`
 (`KM.Bgp.validateCovering` / `validateLoop`, Bgp/Validate.lean) equals the definition that the
 translator `pure_fns` regenerates from `/repo/src/server/bgp/analyser.rs` on every run
-(`Generated/PureFns.lean`, `KM.Gen.ValidatedRouteOrigin.validate`).
+(`Generated/PureFnsC17.lean`, `KM.Gen.ValidatedRouteOrigin.validate`).
 
 `valid_iff`, `invalid_iff`, `validate_eq_rfc6811` (Props/C17.lean) are about `KM.Bgp.validate`, which is
 the covering filter followed by `validateCovering`.  With `gen_validate_eq_model` the latter is tied to
@@ -17,7 +17,7 @@ model's `Roa` (payload = the ROA itself), `Ann`, and the model's accessors.  `to
 generated record and variants to the model's.  The model writes the flags as
 `same || r.asn == a.asn` / `nonAs0 || r.asn != 0`; the code assigns `true` under the same tests.
 -/
-import KrillModel.Generated.PureFns
+import KrillModel.Generated.PureFnsC17
 import KrillModel.Bgp.Validate
 namespace KM.Props.C17Src
 open KM.Bgp
